@@ -179,6 +179,21 @@ def gen_plan(rnd, idx, pool, cycles):
                 schedule_mode=mode, schedule=schedule, sources=sources)
 
 
+def add_chains(rnd, plan):
+    """chains of derived drivers: the driver of domain k is built with base= the driver of an earlier domain j < k (which has its
+    own, independent enable) instead of the system driver, giving chains  own -> base -> base.base -> system driver  of 1-3 derived
+    drivers.  Drawn from a stream of its own so that the rest of the plan is what it was.  Forms without base= get one."""
+    doms = plan['domains']
+    for k, d in enumerate(doms):
+        d['base'] = None
+        if k > 0 and rnd.random() < 0.55:
+            d['base'] = k - 1 if rnd.random() < 0.7 else rnd.randrange(k)
+            d['form'] = {'nobase_wire': 'base_wire', 'nobase_nowire': 'base_nowire', 'positional_nobase': 'base_wire'}.get(d['form'], d['form'])
+    if rnd.random() < (0.5 if plan.get('same_names') else 0.15):
+        plan['same_names'] = 'system'       # every derived driver is called like the system default driver
+    return plan
+
+
 def gen_stimulus(rnd, plan, cycles):
     """per cycle: {poked net name: value}.  Block inputs come from the C09 history generator (duty cycles, holds,
     documented domain); enable-type pokes are 0 / non-zero with a per-segment duty, multi-bit values biased to even ones."""
@@ -228,12 +243,14 @@ FORMS = ('base_wire', 'base_nowire', 'nobase_wire', 'nobase_nowire', 'positional
 EARLY = ('none', 'sim', 'scope', 'oldwaveform', 'query', 'rtl')
 
 
-def make_driver(py4hw, hw, name, form, en, clkwire):
+def make_driver(py4hw, hw, name, form, en, clkwire, base=None):
     """every legal way of building a gated ClockDriver: base= is optional (only RTL generation reads it), so is wire="""
+    # base: the driver this one is derived from -- the system driver, or (chains) another derived, possibly gated, driver
+    base = hw.clockDriver if base is None else base
     if form == 'base_wire':
-        return py4hw.ClockDriver(name, base=hw.clockDriver, enable=en, wire=clkwire())
+        return py4hw.ClockDriver(name, base=base, enable=en, wire=clkwire())
     if form == 'base_nowire':
-        return py4hw.ClockDriver(name, base=hw.clockDriver, enable=en)
+        return py4hw.ClockDriver(name, base=base, enable=en)
     if form == 'nobase_wire':
         return py4hw.ClockDriver(name, enable=en, wire=clkwire())
     if form == 'nobase_nowire':
@@ -244,19 +261,25 @@ def make_driver(py4hw, hw, name, form, en, clkwire):
     # ClockDriver('clk_dut', base=hw.clockDriver, wire=clk_out, enable=clk_out)).  The value of that net is a level, not a
     # clock: the domain advances whenever the enable reads non-zero
     if en is None:
-        return py4hw.ClockDriver(name, base=hw.clockDriver, enable=None, wire=clkwire())
+        return py4hw.ClockDriver(name, base=base, enable=None, wire=clkwire())
     if form == 'wire_is_enable':
         # the enable net itself (GatedClock output, register output, gate output, Sequence source, or a poked net)
-        return py4hw.ClockDriver(name, base=hw.clockDriver, wire=en, enable=en)
+        return py4hw.ClockDriver(name, base=base, wire=en, enable=en)
     w = clkwire(en.getWidth())
     tag = '%s_%d' % (w.name, len(hw.children))
     if form == 'wire_buf_of_enable':
         py4hw.Buf(hw, 'clkbuf_' + tag, en, w)
-        return py4hw.ClockDriver(name, base=hw.clockDriver, wire=w, enable=en)
+        return py4hw.ClockDriver(name, base=base, wire=w, enable=en)
     if form == 'wire_reg_of_enable':
         py4hw.Reg(hw, 'clkreg_' + tag, en, w)       # a register output as clock wire, another net as enable
-        return py4hw.ClockDriver(name, base=hw.clockDriver, wire=w, enable=en)
+        return py4hw.ClockDriver(name, base=base, wire=w, enable=en)
     raise ValueError(form)
+
+
+def driver_name(plan, hw, default):
+    """names are free labels: distinct per driver, one label shared by all derived drivers, or the system default driver's own name"""
+    sn = plan.get('same_names')
+    return hw.clockDriver.name if sn == 'system' else 'gclk' if sn else default
 
 
 class Node:
@@ -393,15 +416,18 @@ def build(plan, stim=None):
 
     B.wires = wires
     for k, d in enumerate(doms):
-        name = 'gclk' if plan.get('same_names') else 'clk_d%d' % k
+        name = driver_name(plan, hw, 'clk_d%d' % k)
         form = d.get('form', 'base_wire')
+        # derived from the system driver, or from the driver of an earlier domain (a chain of derived drivers)
+        brec = B.drvrec[d['base']] if d.get('base') is not None else None
+        bobj = brec['obj'] if brec is not None else None
         if d.get('en_start', True):
-            obj = make_driver(py4hw, hw, name, form, wires['en%d' % k], lambda w=1, k=k: W('clkw_d%d' % k, w))
-            B.drvrec[k] = dict(key='d%d' % k, name=name, obj=obj, en=wires['en%d' % k], kind=d['kind'], enw=d['enw'], form=form)
+            obj = make_driver(py4hw, hw, name, form, wires['en%d' % k], lambda w=1, k=k: W('clkw_d%d' % k, w), base=bobj)
+            B.drvrec[k] = dict(key='d%d' % k, name=name, obj=obj, en=wires['en%d' % k], kind=d['kind'], enw=d['enw'], form=form, base_rec=brec)
         else:
             # a separate clock domain without gating (yet): its enable net may be attached to the live driver later
-            obj = make_driver(py4hw, hw, name, form, None, lambda w=1, k=k: W('clkw_d%d' % k, w))
-            B.drvrec[k] = dict(key='d%d' % k, name=name, obj=obj, en=None, kind='always_on', enw=0, form=form)
+            obj = make_driver(py4hw, hw, name, form, None, lambda w=1, k=k: W('clkw_d%d' % k, w), base=bobj)
+            B.drvrec[k] = dict(key='d%d' % k, name=name, obj=obj, en=None, kind='always_on', enw=0, form=form, base_rec=brec)
         B.attached[k] = False
     items = []
     for k in range(len(doms)):
@@ -480,6 +506,11 @@ def remap(B):
         if rec['drv']['en'] is not None and not any(rec['drv'] is d for d in seen):
             seen.append(rec['drv'])
     B.gating = seen
+    gov = []
+    for rec in B.blocks:
+        if not any(rec['drv'] is d for d in gov):
+            gov.append(rec['drv'])
+    B.governing = gov       # every driver record that clocks some block (evidence: state of the chain of bases at each edge)
 
 
 def resolve_early(B, how):
@@ -587,7 +618,7 @@ def apply_rephase(B, plan, rp):
             # a fresh driver object, gated by the enable of domain j, built in another legal form
             _, j, form = ch.split(':')
             j = int(j)
-            name = 'gclk' if plan.get('same_names') else 'clk_d%d_r' % k
+            name = driver_name(plan, B.hw, 'clk_d%d_r' % k)
             obj = make_driver(py4hw, B.hw, name, form, B.wires['en%d' % j], lambda w=1: B.W('clkw_d%d_r' % k, w))
             B.drvrec[k] = dict(key='d%dr' % k, name=name, obj=obj, en=B.wires['en%d' % j], kind=doms[j]['kind'], enw=doms[j]['enw'], form=form)
             attach(B, k)
@@ -649,11 +680,19 @@ def run_design(run, plan, stim, stats=None, verbose=False):
     sequence_sources = plan.get('sources', 'poke') == 'sequence'
     bump('designs_by_sources', plan.get('sources', 'poke'))
     bump('designs_by_schedule', plan.get('schedule_mode', 'step'))
+    bump('designs_by_driver_names', {'system': 'all_named_as_system_driver', True: 'one_shared_label'}.get(plan.get('same_names'), 'distinct'))
 
     def capture():
         """what the oracle needs from right before an edge: enable values, block inputs, frozen state of gated blocks"""
         for d in B.gating:
             d['now'] = d['en'].get()
+        for d in B.governing:
+            # evidence only: the enables along  own driver -> base -> base.base ...  ('-' = that driver has no enable)
+            ch, a = [], d
+            while a is not None and len(ch) < 8:
+                ch.append('-' if a['en'] is None else '0' if a['en'].get() == 0 else '1')
+                a = a.get('base_rec')
+            d['chain_now'] = ch
         pre = []
         for rec in B.blocks:
             ins = {p: w.get() for p, w in rec['ins'].items()}
@@ -678,9 +717,19 @@ def run_design(run, plan, stim, stats=None, verbose=False):
                 bump('edges_enable_multibit_not_1', d['kind'])
                 if not d['now'] & 1:
                     bump('edges_enable_nonzero_even', d['kind'])
+        for d in B.governing:
+            ch = d.get('chain_now') or []
+            if len(ch) >= 2:
+                bump('chain_edges_by_enables_own_base_basebase', 'depth%d:%s' % (len(ch), '/'.join(ch)))
+                if ch[0] != '0' and '0' in ch[1:]:
+                    stats['chain_edges_own_open_some_base_closed'] = stats.get('chain_edges_own_open_some_base_closed', 0) + 1
         for rec, (ins, active, froz) in zip(B.blocks, ST['pre']):
             e, cfg = rec['entry'], rec['cfg']
             drv = rec['drv']
+            chn = drv.get('chain_now') or []
+            if len(chn) >= 2:
+                bump('chain_block_checks', 'depth%d:%s' % (len(chn), 'advances' if active else 'holds') +
+                     (',a_base_is_closed' if '0' in chn[1:] else ',bases_open'))
             kind = drv['kind']
             run.ev()
             if active:
@@ -719,8 +768,9 @@ def run_design(run, plan, stim, stats=None, verbose=False):
                 run.violation('c10_value', dict(kind=kind, active=bool(active), en_is_one=(en_val == 1) if en_val is not None else None,
                                                 form=drv['form']),
                               dict(case, stimulus=stim[:t + 1], cycle=t, block=rec['id'], out=o), expected=ev, observed=ov,
-                              what='edge %d: %s %s%r (%s, driver built as %s, enable read %r) output %s expected %d got %d'
-                                   % (t + 1, rec['id'], e.name, cfg, kind, drv['form'], en_val, o, ev, ov))
+                              what='edge %d: %s %s%r (%s, driver built as %s, enable read %r%s) output %s expected %d got %d'
+                                   % (t + 1, rec['id'], e.name, cfg, kind, drv['form'], en_val,
+                                      '; enables along own driver/base/...: %s' % '/'.join(chn) if len(chn) >= 2 else '', o, ev, ov))
                 return False
         if not ST['diverged']:
             for pair in twins.values():
@@ -801,6 +851,10 @@ def run_design(run, plan, stim, stats=None, verbose=False):
     diverged = ST['diverged']
     both = any(s[0] > 0 and s[1] > 0 for s in seen.values())
     for k, d in enumerate(doms):
+        depth, j = 1, d.get('base')
+        while j is not None:
+            depth, j = depth + 1, doms[j].get('base')
+        bump('domains_by_chain_depth', str(depth))
         bump('domains', d['kind'])
         bump('domains_enw%d' % d['enw'], d['kind'])
         bump('domains_by_driver_form', d.get('form', 'base_wire'))
@@ -864,6 +918,10 @@ def run_check(run, tier, seed, shard):
                'the combinational logic settled); any non-zero value of a multi-bit enable is active')
     run.assume('a nested gated sub-hierarchy follows its own (nearest) driver only; the enable of an enclosing domain does not '
                'apply to it (the statement says blocks inherit the nearest ancestor\'s driver)')
+    run.assume('a driver derived from another derived driver (ClockDriver(base=g1, enable=e2) with g1 itself gated by e1) is gated by its OWN '
+               'enable only: base= supplies frequency / phase (and the clock input name in RTL), the enables of the bases do not stop it; an '
+               'ungated driver derived from a gated one always runs (read from Simulator._clk_cycle on the unchanged tree: only drv.enable is '
+               'looked at; the statement speaks of the enable of the driver the blocks are placed under)')
     run.assume('outputs of a block are compared with the reference only once the block was clocked at least once (power-up '
                'values of nets are not part of the statement); the frozen-state clause is checked from the first edge')
     run.assume('reference machines and input domains are those of C09 (vlib/seqcat.py)')
@@ -898,6 +956,7 @@ def run_check(run, tier, seed, shard):
             rnd = rng(seed, 'C10', idx)
             plan = gen_plan(rnd, idx, pool, p['cycles'])
             stim = gen_stimulus(rnd, plan, p['cycles'])
+            add_chains(rng(seed, 'C10', 'chain', idx), plan)
             status, info = run_design(run, plan, stim, stats)
             run.count('designs')
             if status == 'ok':
@@ -907,7 +966,7 @@ def run_check(run, tier, seed, shard):
                 if idx % 37 == 0:
                     run.sample(dict(early_step=plan['early'], rephase=plan['rephase'], sources=plan['sources'], schedule=plan['schedule'] or 'clk(1) stepping',
                                     domains=[dict(kind=d['kind'], enw=d['enw'], depth=d['depth'], inside=d['inside'], on_block=d['on_block'],
-                                                  driver_form=d['form'], attached=d['attach'],
+                                                  driver_form=d['form'], attached=d['attach'], base=d.get('base'),
                                                   blocks=[(b['entry'], b['cfg'], b['role'], 'nest%d' % b['nest'], b['conn']) for b in d['blocks']])
                                              for d in plan['domains']],
                                     enable_edges_zero_nonzero=info['seen'], clockables_per_driver=info['drivers'], edges=len(stim)))
@@ -948,6 +1007,21 @@ def post_merge(run, tier, seed):
     for ch in ('enable_set', 'enable_remove'):
         if not run.extra.get('live_enable_changes_on_held_simulator', {}).get(ch):
             run.inconclusive.append('no mid-run %s on a live driver with the bench going on with the held simulator' % ch)
+    ce = run.extra.get('chain_edges_by_enables_own_base_basebase', {})
+    for depth in (2, 3):
+        for m in range(1 << depth):
+            combo = 'depth%d:%s' % (depth, '/'.join('1' if (m >> i) & 1 else '0' for i in range(depth)))
+            if not ce.get(combo):
+                run.inconclusive.append('chain of derived drivers: enable combination %s (own/base/...) never reached at an edge' % combo)
+    if not any(k.startswith('depth') and k.split(':')[1].startswith('-') and '0' in k.split(':')[1] for k in ce):
+        run.inconclusive.append('no edge with an ungated driver derived from a gated driver whose enable read 0')
+    cb = run.extra.get('chain_block_checks', {})
+    for depth in (2, 3):
+        if not cb.get('depth%d:advances,a_base_is_closed' % depth):
+            run.inconclusive.append('no block judged as advancing under a depth-%d chain while an enable of a base driver read 0' % depth)
+    for m in ('all_named_as_system_driver', 'one_shared_label', 'distinct'):
+        if not run.extra.get('designs_by_driver_names', {}).get(m):
+            run.inconclusive.append('no design whose derived drivers are named: %s' % m)
     fl = run.extra.get('edges_inside_clk_call_with_flipped_enable', {})
     for d in ('now_on', 'now_off'):
         if not fl.get(d):
